@@ -60,6 +60,10 @@ ASSUMPTIONS = [
     'no unary plus; quoted sheet names contain no ":"',
     'blanks and newlines are placed only where the statement allows them (around operators, parentheses, '
     'arguments, leading/trailing) - never between a function name and its "(" nor between two operands',
+    'generator cap: exponents of scientific literals have at most 6 significant digits and malformed texts with a '
+    '3+-digit exponent are skipped, because the COMPILED Lean driver panics ("Nat.pow exponent is too big") when '
+    'Model/Value.lean\'s float(text) evaluates 10^e for |e| >= 2^24 (e.g. 1E+99999999999); the theorem C02 is '
+    'unaffected (such literals are well-formed and covered by it)',
     'named_ranges = {} in every parse; names are not resolved (property C08 covers name resolution)',
     'the malformed stream is model validation only: a disagreement there is reported as model drift, never as '
     'a violation of C02',
